@@ -142,7 +142,9 @@ def replay(run, emits):
                                   dict(family=em["fam"], route=rname, e=[num, den], B=em["B"], X=Xs, observed=bad[1]))
     run.traces += len(emits)
     run.nontrivial_count += len(emits)
+    shown = set()
     for em in emits:
-        if em["fam"] in ("lox", "gen") and em["X"]["cls"] == "point":
+        if em["fam"] in ("lox", "gen") and em["X"]["cls"] == "point" and em["fam"] not in shown:
+            shown.add(em["fam"])
             run.sample(dict(kind="near-identity family (%s)" % em["fam"], matrix_polynomials=em["mat"], den=em["den"], X=em["X"], B=em["B"],
                             exact_image_A_X=em["exprs"]["AX"]["img"], eps=sorted(em["eps"])))
